@@ -227,6 +227,8 @@ class G(object):
                 # a row without any text or rule (plasTeX drops such rows by design; "r non-empty rows yield r rows")
                 rows.append({'cells': [], 'blank': r.choice(['\\\\', 'cells']), 'hline': False, 'cline': None})
         node = {'t': 'tabular', 'aligns': aligns, 'bars': bars, 'rows': rows, 'hline_end': r.random() < 0.3}
+        # the last row as most people write it: without a closing \\ (possible when no rule follows it)
+        node['open_last'] = (not node['hline_end']) and not rows[-1].get('blank') and r.random() < 0.4
         if rich:
             node['at'] = [r.random() < 0.2 for _ in range(ncol + 1)]
             node['star'] = r.random() < 0.3
@@ -571,7 +573,7 @@ def p_tabular(b):
         if row.get('blank'):
             s += (' \\\\\n' if row['blank'] != 'cells' else ' & ' * (len(b['aligns']) - 1) + ' \\\\\n')
             continue
-        s += ' & '.join(p_cell(c) for c in row['cells']) + ' \\\\\n'
+        s += ' & '.join(p_cell(c) for c in row['cells']) + ('\n' if (b.get('open_last') and row is b['rows'][-1]) else ' \\\\\n')
     if b['hline_end']:
         s += '\\hline\n'
     return s + '\\end{tabular}\n'
